@@ -184,6 +184,8 @@ func gedit(args []string) error {
 		return fmt.Errorf("dump has %d states, TLC reported %d", n, *expect)
 	}
 	rep.Count("marshal_texts_not_as_specified", atomic.LoadInt64(&marshalDrift))
+	rep.Count("marshal_refused_by_iterators_whose_scope_exceeds_the_value", atomic.LoadInt64(&marshalRefused))
+	rep.Count("marshal_answers_of_such_iterators_not_as_specified", atomic.LoadInt64(&marshalAnswered))
 	rep.Count("serializer_blobs_compared_with_spec_streams", atomic.LoadInt64(&streamChecked))
 	rep.Count("serializer_blobs_not_as_specified", atomic.LoadInt64(&streamDrift))
 	if d, _ := streamDriftFirst.Load().(string); d != "" {
@@ -412,7 +414,9 @@ func replayEdits(rep *run.Report, batch []editCase, prop string, serModes int) {
 						}
 						continue
 					}
-					if m.err != nil {
+					if m.err != nil && m.mayRefuse {
+						atomic.AddInt64(&marshalRefused, 1)
+					} else if m.err != nil {
 						fail("marshal", string(want), "error", fmt.Sprintf("%s at %v: %v", m.api, p, m.err))
 					} else if !bytes.Equal(m.out, want) {
 						if why := marshalDemand(m.out, []abs.Value{absAt(c.docs, p)}, avx512); why != "" {
@@ -420,6 +424,9 @@ func replayEdits(rep *run.Report, batch []editCase, prop string, serModes int) {
 						} else {
 							atomic.AddInt64(&marshalDrift, 1)
 						}
+					} else if m.mayRefuse {
+						// MarshalMachine!InnerAgrees specifies a refusal here; the right text is no violation of the property
+						atomic.AddInt64(&marshalAnswered, 1)
 					}
 				}
 			}
@@ -472,7 +479,7 @@ func replayEdits(rep *run.Report, batch []editCase, prop string, serModes int) {
 	}
 }
 
-var marshalDrift int64
+var marshalDrift, marshalRefused, marshalAnswered int64
 
 // absAt is the value at path p = [root, member index, ...] of docs.
 func absAt(docs []abs.Value, p []int) abs.Value {
@@ -712,6 +719,9 @@ type marshalled struct {
 	api string
 	out []byte
 	err error
+	// the iterator's scope reaches past the value (the rest of the enclosing container and its closing tag): the marshaller may
+	// refuse, but what it returns without an error must still be the value
+	mayRefuse bool
 }
 
 // marshalAt marshals the value at path through every API whose scope is
@@ -728,17 +738,17 @@ func marshalAt(pj *simdjson.ParsedJson, path []int) (out []marshalled) {
 	}
 	cp := *it
 	b, merr := cp.MarshalJSON()
-	out = append(out, marshalled{"Iter.MarshalJSON", b, merr})
+	out = append(out, marshalled{api: "Iter.MarshalJSON", out: b, err: merr})
 	// the ...Buffer variants append to what the caller already has: the prefix must survive and the same text follow it
 	pfx := func(extra int) []byte { return append(make([]byte, 0, 4+extra), "{\"p\":"...) }
 	strip := func(api string, b []byte, err error) marshalled {
 		if err == nil {
 			if !bytes.HasPrefix(b, []byte("{\"p\":")) {
-				return marshalled{api, b, fmt.Errorf("the bytes already in dst were changed: %q", b)}
+				return marshalled{api: api, out: b, err: fmt.Errorf("the bytes already in dst were changed: %q", b)}
 			}
 			b = b[len("{\"p\":"):]
 		}
-		return marshalled{api, b, err}
+		return marshalled{api: api, out: b, err: err}
 	}
 	cp = *it
 	b, merr = cp.MarshalJSONBuffer(pfx(len(path) % 2 * 64))
@@ -751,7 +761,7 @@ func marshalAt(pj *simdjson.ParsedJson, path []int) (out []marshalled) {
 			return append(out, marshalled{api: "Array", err: aerr})
 		}
 		b, merr := arr.MarshalJSON()
-		out = append(out, marshalled{"Array.MarshalJSON", b, merr})
+		out = append(out, marshalled{api: "Array.MarshalJSON", out: b, err: merr})
 		cp = *it
 		if arr2, aerr2 := cp.Array(nil); aerr2 == nil {
 			b, merr = arr2.MarshalJSONBuffer(pfx(64))
@@ -768,9 +778,68 @@ func marshalAt(pj *simdjson.ParsedJson, path []int) (out []marshalled) {
 			return append(out, marshalled{api: "Object.Parse", err: perr})
 		}
 		b, merr := el.MarshalJSON()
-		out = append(out, marshalled{"Elements.MarshalJSON", b, merr})
+		out = append(out, marshalled{api: "Elements.MarshalJSON", out: b, err: merr})
 		b, merr = el.MarshalJSONBuffer(pfx(0))
 		out = append(out, strip("Elements.MarshalJSONBuffer(prefix)", b, merr))
+	}
+	// the other ways the API hands out an iterator positioned on this value
+	if len(path) >= 2 {
+		k := path[len(path)-1]
+		parent, perr := navScoped(pj, path[:len(path)-1])
+		if perr != nil {
+			return out
+		}
+		switch parent.Type() {
+		case simdjson.TypeArray:
+			cp = *parent
+			if arr, aerr := cp.Array(nil); aerr == nil {
+				n := 0
+				arr.ForEach(func(i simdjson.Iter) {
+					if n++; n == k {
+						b, merr := i.MarshalJSON()
+						out = append(out, marshalled{"MarshalJSON of the Array.ForEach callback iterator", b, merr, true})
+					}
+				})
+				ai := arr.Iter()
+				for j := 0; j < k; j++ {
+					ai.Advance()
+				}
+				b, merr := ai.MarshalJSON()
+				out = append(out, marshalled{"MarshalJSON of Array.Iter() advanced onto the element", b, merr, true})
+			}
+		case simdjson.TypeObject:
+			cp = *parent
+			if obj, oerr := cp.Object(nil); oerr == nil {
+				n := 0
+				obj.ForEach(func(_ []byte, i simdjson.Iter) {
+					if n++; n == k {
+						b, merr := i.MarshalJSON()
+						out = append(out, marshalled{"MarshalJSON of the Object.ForEach callback iterator", b, merr, true})
+					}
+				}, nil)
+			}
+			cp = *parent
+			if obj, oerr := cp.Object(nil); oerr == nil {
+				var dst simdjson.Iter
+				ok := true
+				for j := 0; j < k && ok; j++ {
+					_, t, nerr := obj.NextElement(&dst)
+					ok = nerr == nil && t != simdjson.TypeNone
+				}
+				if ok {
+					b, merr := dst.MarshalJSON()
+					out = append(out, marshalled{"MarshalJSON of the Object.NextElement iterator", b, merr, false})
+				}
+			}
+			cp = *parent
+			if obj, oerr := cp.Object(nil); oerr == nil {
+				if els, eerr := obj.Parse(nil); eerr == nil && k <= len(els.Elements) {
+					ei := els.Elements[k-1].Iter
+					b, merr := ei.MarshalJSON()
+					out = append(out, marshalled{"MarshalJSON of Elements[k].Iter", b, merr, false})
+				}
+			}
+		}
 	}
 	return out
 }
